@@ -260,7 +260,9 @@ pub struct Executor {
 impl Executor {
     pub fn run(&self, scenario: &Scenario) -> Result<RunResult, String> {
         let n = RUN_COUNTER.fetch_add(1, Ordering::Relaxed);
-        let dir = scratch_base().join(format!("verif-{}-{}-{}", self.tag, std::process::id(), n));
+        // fixed-width components: the absolute path of the world has the same length in every execution, so that a
+        // compiler which reports absolute paths produces outputs that differ in the path only (see the digests)
+        let dir = scratch_base().join(format!("verif-{}-{:07}-{:09}", self.tag, std::process::id(), n));
         let _ = std::fs::remove_dir_all(&dir);
         std::fs::create_dir_all(&dir).map_err(|e| format!("{}: {e}", dir.display()))?;
         let r = self.run_in(scenario, &dir);
@@ -326,8 +328,15 @@ impl Executor {
         let mut trace = Vec::new();
         let mut garbled = false;
         let lines: Vec<&[u8]> = raw.split(|b| *b == b'\n').filter(|l| !l.is_empty()).collect();
+        let root_hex = refcodec::util::hex(sim.root.as_bytes());
         for (i, line) in lines.iter().enumerate() {
-            digest.update(line);
+            // the digest ignores WHERE this execution's world happened to live (plain and hex-encoded occurrences)
+            let text = String::from_utf8_lossy(line);
+            if text.contains(&sim.root) || text.contains(&root_hex) {
+                digest.update(text.replace(&sim.root, "@ROOT@").replace(&root_hex, "@ROOTHEX@").as_bytes());
+            } else {
+                digest.update(line);
+            }
             match serde_json::from_slice::<Event>(line) {
                 Ok(ev) => trace.push(ev),
                 // a torn LAST record: the process ended (exit, abort, kill) while a record was being written
